@@ -7,17 +7,7 @@ mod tools;
 use engine::{RunCtx, Tier};
 use std::path::PathBuf;
 
-macro_rules! registry {
-    ($action:ident, $id:expr, $ctx:expr, $path:expr) => {
-        match $id {
-            "C01" => dispatch!($action, props::c01::C01, $ctx, $path),
-            _ => {
-                eprintln!("unknown property {}", $id);
-                2
-            }
-        }
-    };
-}
+include!("registry.rs");
 
 macro_rules! dispatch {
     (run, $p:expr, $ctx:expr, $path:expr) => {
